@@ -21,6 +21,7 @@ CONSTANTS
   AlignUp = FALSE
   MaxDtor = 0
   DtorFirst = TRUE
+  MaxFail = 0
   MaxDtorMoves = 1
   MaxOwner = 0
 INVARIANTS TypeOK Exclusive BlockAlive BookkeepingTruthful LargeEnough SizeRoundTrip HeapFallbackFreedOnce TrailerTruthful MtSafeNeverShares BusyMeansInUse ReuseBlock ExtraCtorDtorOnce ExtraDiesInOwnBlock
